@@ -213,14 +213,60 @@ fn eval(text: &str) -> Result<Good, Bad> {
     }
 }
 
+/// Handler-level observation: semantic tokens of the real server (SimServer session, a client without
+/// multilineTokenSupport). Every string token that spans several lines is split per line; the piece of a
+/// non-final line must be as long as the rest of that line in UTF-16 code units. Ok(number of pieces judged).
+fn semantic_pieces(work: &str, text: &str) -> Result<usize, Bad> {
+    let pieces = super::c26::multi_line_pieces(text);
+    if pieces.is_empty() {
+        return Ok(0);
+    }
+    let data: Option<Vec<u64>> = crate::lspdrive::run_session(work, text, json!({}), async move |s: &mut crate::lspdrive::DocSession| {
+        let td = s.td();
+        let r = s.call("textDocument/semanticTokens/full", json!({"textDocument": td})).await;
+        r.and_then(|r| r.result).and_then(|v| v["data"].as_array().map(|a| a.iter().map(|x| x.as_u64().unwrap_or(u64::MAX)).collect()))
+    });
+    let Some(data) = data else { return Ok(0) };
+    let (mut line, mut ch) = (0u64, 0u64);
+    let mut judged = 0;
+    for t in data.chunks(5) {
+        if t.len() < 5 {
+            break;
+        }
+        if t[0] == 0 {
+            ch += t[1];
+        } else {
+            line += t[0];
+            ch = t[1];
+        }
+        if let Some(p) = pieces.iter().find(|p| p.0 == line && p.1 == ch) {
+            judged += 1;
+            if t[2] != p.2 {
+                let unit = if (t[2] as usize) < p.2 as usize { "shorter" } else { "longer" };
+                return Err(Bad {
+                    sig: format!("C23:semantic-token-piece-not-in-utf16-units:{unit}"),
+                    detail: format!("semantic token at {line}:{ch} has length {}; it is one line of a multi-line string and the rest of that line is {} UTF-16 code units", t[2], p.2),
+                });
+            }
+        }
+    }
+    Ok(judged)
+}
+
 fn is_name(s: &str) -> bool {
     !s.is_empty() && s.chars().all(|c| c.is_ascii_alphanumeric() || c == '_') && !s.chars().next().unwrap().is_ascii_digit()
 }
 
 pub fn run(ctx: &mut Ctx) {
+    crate::util::private_home(&ctx.work.clone(), "c23");
     if let Some(rep) = ctx.replay.clone() {
         let text = rep["text"].as_str().unwrap_or("").to_string();
         match eval(&text) {
+            Ok(_) if rep["semantic"].as_bool().unwrap_or(false) && semantic_pieces(&ctx.work.clone(), &text).is_err() => {
+                let b = semantic_pieces(&ctx.work.clone(), &text).err().unwrap();
+                println!("replay: VIOLATED {}: {}", b.sig, b.detail);
+                ctx.violated(&b.sig, &b.detail, rep);
+            }
             Ok(g) => {
                 println!("replay: held ({} token ranges and {} diagnostics select their text under UTF-16 / LSP line splitting)", g.tokens, g.diags);
                 ctx.held(fnv(text.as_bytes()), true);
@@ -259,6 +305,13 @@ pub fn run(ctx: &mut Ctx) {
                 ctx.extra_add("tokens_after_astral_on_same_line", g.astral_before as u64);
                 ctx.extra_add("tokens_after_lone_cr", g.cr_before as u64);
                 ctx.held(fp, g.tokens >= 8 && g.diags >= 1);
+                // handler level (slower): every 8th document that has a multi-line string
+                if i % 8 == 3 || text.contains("[[") && i % 3 == 0 {
+                    match semantic_pieces(&ctx.work.clone(), &text) {
+                        Ok(n) => ctx.clause_n("semantic-token-pieces-judged", n as u64),
+                        Err(b) => ctx.violated(&b.sig, &format!("{}; document {:?}", b.detail, clip(&text, 300)), json!({"text": text, "semantic": true})),
+                    }
+                }
                 if ctx.want_sample() && i % 61 == 2 {
                     ctx.sample(json!({"text": text, "tokens": g.tokens, "diagnostics": g.diags}));
                 }
